@@ -398,3 +398,50 @@ func initStore(a *ssa.Alloc) ssa.Value {
 	}
 	return nil
 }
+
+// literalStoreValues: like literalStores, but the SSA value of each field of the (single) literal of that type built in f
+// (nil for a field set differently by different literals).
+func literalStoreValues(f *ssa.Function, typeSuffix string) map[string]ssa.Value {
+	out := map[string]ssa.Value{}
+	conflict := map[string]bool{}
+	put := func(k string, v ssa.Value) {
+		if old, ok := out[k]; ok && old != v {
+			conflict[k] = true
+		}
+		out[k] = v
+	}
+	add := func(v ssa.Value) {
+		a := localCell(v)
+		if a == nil || !hasSuffixType(derefType(a.Type()), typeSuffix) {
+			return
+		}
+		for k, fv := range structLiteralFields(v) {
+			put(k, fv)
+		}
+	}
+	allInstrs(f, func(in ssa.Instruction) {
+		switch x := in.(type) {
+		case *ssa.Return:
+			for _, r := range x.Results {
+				add(r)
+			}
+		case *ssa.Store:
+			if fa, ok := x.Addr.(*ssa.FieldAddr); ok {
+				if ia, ok := fa.X.(*ssa.IndexAddr); ok && hasSuffixType(derefType(fa.X.Type()), typeSuffix) && (rootedInLocal(ia.X) || holdsFreshMake(ia.X)) {
+					put(fieldName(fa.X.Type(), fa.Field), x.Val)
+					return
+				}
+			}
+			if localCell(x.Addr) != nil && x.Addr == ssa.Value(localCell(x.Addr)) {
+				return
+			}
+			add(x.Val)
+		case *ssa.MapUpdate:
+			add(x.Value)
+		}
+	})
+	for k := range conflict {
+		out[k] = nil
+	}
+	return out
+}
